@@ -64,6 +64,10 @@ Qed.
 
 Ltac Zify.zify_post_hook ::= Z.div_mod_to_equations.
 
+(* 2^64 stays an opaque atom for lia (unfolding the literal makes certificate checking crawl) *)
+Lemma two64_big : 4294967296 <= two64.
+Proof. apply N.leb_le. vm_compute. reflexivity. Qed.
+
 Ltac kill_strided_end :=
   repeat match goal with
   | |- context [strided_end ?a ?b ?c ?d] =>
@@ -81,4 +85,4 @@ Ltac solve_accesses :=
   | |- Forall _ [] => constructor
   | |- in_bounds _ _ => unfold in_bounds; cbv beta iota zeta; unfold wsub
   end;
-  try lia.
+  try (pose proof two64_big; repeat match goal with |- context [?b <=? ?a] => destruct (N.leb_spec b a) end; lia).
